@@ -189,6 +189,21 @@ class World:
         return "P"
 
 
+def content_stamp(o):
+    """Content of a mutable object as the scripts edit it: the marker appended to a list, or the
+    c13content attribute; 0 = pristine."""
+    try:
+        if isinstance(o, list):
+            for x in reversed(o):
+                if isinstance(x, str) and x.startswith("c13mut"):
+                    return int(x[6:])
+            return 0
+        v = getattr(o, "c13content", 0)
+        return v if isinstance(v, int) else 0
+    except Exception:
+        return 0
+
+
 def same(a, b):
     if a is b:
         return True
@@ -255,6 +270,9 @@ def op_stmts(op, pyproject: bool):
             return ["sys.modules[%r] = sys.modules['req_compile.metadata.source'].FakeModule(%r)" % (name, name)]
     if t == "R":
         return ["sys.modules.pop(%r, None)" % op[1]]
+    if t == "M":
+        # in-place edit of whatever object the attribute holds (the sys.argv[1:] = [...] of distutils-style code)
+        return ["_v = getattr(_M[%r], %r, None)\nif isinstance(_v, list):\n    _v[:] = [x for x in _v if not (isinstance(x, str) and x.startswith('c13mut'))] + ['c13mut%d']\nelif _v is not None:\n    try:\n        _v.c13content = %d\n    except Exception:\n        pass" % (op[1], op[2], op[3], op[3])]
     if t == "S":
         if op[1] == "@ROOT":
             return ["sys.path.insert(0, _ROOT)"]
@@ -470,6 +488,7 @@ def run_case(w: World, case, tmp, emit):
     listing0 = sorted(_REAL["listdir"](cwd0))
     hash0 = tree_hash(proj)
     argv0 = list(sys.argv)
+    contents0 = [("-" if (v is ABSENT or v is None) else content_stamp(v)) for v in raws0]
     init_line = state_tokens(w, canon0, "CWD0", path0, list(range(1, len(meta0) + 1)), mods0)
     emit({"pre": case["id"], "init": init_line, "root": root, "fake_root": fake_root, "listing0": listing0,
           "cwd_in_project": bool(init.get("cwd_in_project") and os.path.isdir(proj))})
@@ -488,6 +507,8 @@ def run_case(w: World, case, tmp, emit):
     raws1 = [w.raw(k) for k in w.keys]
     canon1 = [w.canon_final(raws0, v) for v in raws1]
     path1 = list(sys.path)
+    # content of the objects the keys held INITIALLY (identity is canon1's business)
+    contents1 = ["-" if (v is ABSENT or v is None) else str(content_stamp(v)) for v in raws0]
     meta1 = []
     for f in list(sys.meta_path):
         idx = next((i + 1 for i, o in enumerate(meta0) if o is f), None)
@@ -510,7 +531,8 @@ def run_case(w: World, case, tmp, emit):
     w.repair()
     cwd_tok = "CWD0" if cwd1 == cwd0 else cwd1.replace(proj, "PROJ").replace(tmp, "TMP")
     final_line = " ".join(canon1) + " | " + hx(cwd_tok) + " | " + " ".join(hx(p) for p in path1) + " | " \
-        + " ".join(str(x) for x in meta1) + " | " + " ".join(sorted(hx(n) + ":" + k for n, k in mods1))
+        + " ".join(str(x) for x in meta1) + " | " + " ".join(sorted(hx(n) + ":" + k for n, k in mods1)) \
+        + " | " + " ".join(contents1)
     listing1 = sorted(os.listdir(cwd0)) if os.path.isdir(cwd0) else ["<gone>"]
     hash1 = tree_hash(proj)
     return {
